@@ -1219,8 +1219,52 @@ type typeEnv struct {
 	recvT types.Type
 }
 
+func (te *typeEnv) paramType(name string) types.Type {
+	if te.sig == nil {
+		return nil
+	}
+	if r := te.sig.Recv(); r != nil && r.Name() == name {
+		return r.Type()
+	}
+	for i := 0; i < te.sig.Params().Len(); i++ {
+		if te.sig.Params().At(i).Name() == name {
+			return te.sig.Params().At(i).Type()
+		}
+	}
+	if name == "self" && te.recvT != nil {
+		return te.recvT
+	}
+	return nil
+}
+
+// typeOfSX: static type of simple path expressions over parameters (x, x.f, x.f.g)
+func (te *typeEnv) typeOfSX(x *SX) types.Type {
+	switch x.Op {
+	case "id":
+		return te.paramType(x.Tok)
+	case "sel":
+		bt := te.typeOfSX(x.Args[0])
+		if bt == nil {
+			return nil
+		}
+		if p, ok := bt.Underlying().(*types.Pointer); ok {
+			bt = p.Elem()
+		}
+		st, ok := bt.Underlying().(*types.Struct)
+		if !ok {
+			return nil
+		}
+		for i := 0; i < st.NumFields(); i++ {
+			if st.Field(i).Name() == x.Tok {
+				return st.Field(i).Type()
+			}
+		}
+	}
+	return nil
+}
+
 func (te *typeEnv) modNames(m *SX) ([]string, bool) {
-	// conservative: without values we cannot resolve the expression; havoc by name where the form is simple
+	// type-level resolution of a modifies target to heap array names (whole arrays: used for loop havoc)
 	g := te.g
 	switch m.Op {
 	case "call":
@@ -1228,10 +1272,34 @@ func (te *typeEnv) modNames(m *SX) ([]string, bool) {
 			if gh, ok := g.P.Contracts.Ghosts[m.Args[0].Tok]; ok {
 				return []string{"G$" + gh.Name}, false
 			}
+			if m.Args[0].Tok == "elems" && len(m.Args) == 2 {
+				if t := te.typeOfSX(m.Args[1]); t != nil {
+					if sl, ok := t.Underlying().(*types.Slice); ok {
+						n, s := g.elemArrName(sl.Elem())
+						g.heapSort[n] = s
+						return []string{n}, false
+					}
+				}
+			}
 		}
 	case "id":
 		if gh, ok := g.P.Contracts.Ghosts[m.Tok]; ok {
 			return []string{"G$" + gh.Name}, false
+		}
+	case "sel":
+		bt := te.typeOfSX(m.Args[0])
+		if bt != nil {
+			if p, ok := bt.Underlying().(*types.Pointer); ok {
+				if st, ok := p.Elem().Underlying().(*types.Struct); ok && g.isSplitStruct(p.Elem()) {
+					for i := 0; i < st.NumFields(); i++ {
+						if st.Field(i).Name() == m.Tok {
+							n, s := g.fieldArrName(p.Elem(), i)
+							g.heapSort[n] = s
+							return []string{n}, false
+						}
+					}
+				}
+			}
 		}
 	}
 	return nil, true
